@@ -25,6 +25,8 @@ if os.path.isdir(DEPS) and DEPS not in sys.path:
     sys.path.append(DEPS)
 
 NPROC = int(os.environ.get('VERIF_NPROC', '16'))
+# sensitivity runs against scratch copies redirect their outputs so that committed evidence is never overwritten
+OUT = os.path.abspath(os.environ.get('VERIF_OUT_DIR') or VERIF)
 
 
 # --------------------------------------------------------------------------------------------------
@@ -447,10 +449,10 @@ def run_property(prop_id, tier, seed, only=None):
             seen[f['signature']] = f
     replay_paths = []
     if seen:
-        os.makedirs(os.path.join(VERIF, 'replays'), exist_ok=True)
+        os.makedirs(os.path.join(OUT, 'replays'), exist_ok=True)
     for sig, f in sorted(seen.items()):
         h = hashlib.sha1((sig + canon(f['case'])).encode()).hexdigest()[:12]
-        path = os.path.join(VERIF, 'replays', f'{prop_id}-{f["sub"]}-{h}.json')
+        path = os.path.join(OUT, 'replays', f'{prop_id}-{f["sub"]}-{h}.json')
         with open(path, 'w') as fh:
             json.dump({'property': prop_id, 'subcheck': f['sub'], 'signature': sig, 'detail': f['detail'],
                        'seed': seed, 'tier': tier, 'case': f['case']}, fh, indent=1, default=_json_default)
@@ -515,8 +517,8 @@ def write_evidence(mod, prop_id, tier, seed, agg, meta, wall, nviol, known_hits,
         'wall_s': round(wall, 2),
         'violations': nviol,
     }
-    os.makedirs(os.path.join(VERIF, 'evidence'), exist_ok=True)
-    with open(os.path.join(VERIF, 'evidence', f'{prop_id}.json'), 'w') as f:
+    os.makedirs(os.path.join(OUT, 'evidence'), exist_ok=True)
+    with open(os.path.join(OUT, 'evidence', f'{prop_id}.json'), 'w') as f:
         json.dump(ev, f, indent=1, default=_json_default)
 
 
